@@ -206,6 +206,8 @@ class WEval:
             if op in ("BitOr", "BitAnd"):
                 return ("bitop", op, x, y)
             raise Unk(f"operator {op}")
+        if t == "tup":
+            return ("tuple", [self.ev(x, env, pc, st) for x in n[1]])
         if t == "ret":
             raise Return(self.ev(n[1], env, pc, st) if len(n) > 1 and n[1] is not None else ("unit",))
         if t == "if":
@@ -264,6 +266,9 @@ class WEval:
                 v = self.ev(s[2], env2, pc, st) if s[2] is not None else ("uninit",)
                 if H.tag(s[1]) == "bind":
                     env2[s[1][1]] = v
+                elif H.tag(s[1]) == "ptup" and isinstance(v, tuple) and v and v[0] == "tuple" and len(v[1]) == len(s[1][1]) and all(H.tag(q) == "bind" for q in s[1][1]):
+                    for q, x in zip(s[1][1], v[1]):
+                        env2[q[1]] = x
                 else:
                     raise Unk("let pattern")
             elif s[0] in ("semi", "expr"):
@@ -321,7 +326,7 @@ class WEval:
             if H.tag(a) == "closure":
                 return self.ev(H.unwrap_async(a), env, pc, st)
         fn = self.F.fn(p)
-        if fn is not None and "_get_" in last:
+        if fn is not None and fn.get("hir") is not None:
             vals = []
             for a in args:
                 wn = self.writer_name(a, env)
@@ -419,6 +424,13 @@ class WEval:
                 st.header_bytes = a[2]
                 return ("unit",)
             raise Unk("write_all of a non-array into the staging buffer")
+        if nm == "extend_from_slice" and len(mc["args"]) == 1:
+            w = self.resolve_writer(recv, env)
+            a = self.ev(mc["args"][0], env, pc, st)
+            if w is not None and a[0] == "vecbuf":
+                self.add_written(w, env, a[2][0], st)
+                return ("unit",)
+            raise Unk("extend_from_slice operands")
         if nm == "write_into_vec":
             w = self.resolve_writer(mc["args"][0], env) if mc["args"] else None
             if w is None:
